@@ -250,6 +250,12 @@ func main() {
 				res = append(res, distinct)
 			}
 			return map[string]any{"listed": listed, "res": res}
+		case "foldpair":
+			s1, s2 := hx.Unhex(c["s1"]), hx.Unhex(c["s2"])
+			m1, m2 := model.ParseName(s1), model.ParseName(s2)
+			n1, n2 := server.VerifC13NamesParse(s1), server.VerifC13NamesParse(s2)
+			return map[string]any{"v1": m1.IsValid(), "v2": m2.IsValid(), "ef": m1.EqualFold(m2),
+				"nv1": n1.Valid, "nv2": n2.Valid, "nfq1": n1.FQ, "nfq2": n2.FQ}
 		case "splitnd":
 			a, b := server.VerifC13SplitNameDigest(hx.Unhex(c["s"]))
 			return map[string]any{"name": hx.Hex(a), "digest": hx.Hex(b)}
